@@ -6,7 +6,7 @@ From JQ Require Import Base.Bytes Num.F64 Syntax.Token Syntax.Lexer Syntax.Ast.
 From JQ Require Import Json.JValue.
 From JQ Require Import Oracle.Utf8.
 From JQ Require Oracle.Regex.
-From JQ Require Import Gen.Generated Sem.Value Sem.Natives.
+From JQ Require Import Gen.Generated Sem.Value Sem.Ops Sem.Natives.
 Open Scope nat_scope.
 
 (* run m and hand back its outcome as a value: Go code that inspects `err` itself *)
@@ -23,43 +23,6 @@ Definition reraise {A B} (r : res A) : M B :=
   end.
 
 
-(* classification of operator / literal tokens: keeps the big tag matches in one place *)
-Inductive bop :=
-| BAnd | BOr | BIs | BMember
-| BLt | BGt | BEq | BNe | BLe | BGe
-| BAdd | BSub | BMul | BDiv | BMod
-| BMatch | BNoMatch | BAssign | BOther.
-Definition bop_of (t : tag) : bop :=
-  match t with
-  | TAmpAmp => BAnd | TPipePipe => BOr | TIs => BIs
-  | TLSquare | TDot => BMember
-  | TLessThan => BLt | TGreaterThan => BGt | TEqualEqual => BEq | TBangEqual => BNe
-  | TLessEqual => BLe | TGreaterEqual => BGe
-  | TPlus => BAdd | TMinus => BSub | TMultiply => BMul | TDivide => BDiv | TPercent => BMod
-  | TTilde => BMatch | TBangTilde => BNoMatch
-  | TEqual => BAssign
-  | _ => BOther
-  end.
-
-Inductive uop := UNot | UPos | UNeg | UInc | UDec | UOther.
-Definition uop_of (t : tag) : uop :=
-  match t with
-  | TBang => UNot | TPlus => UPos | TMinus => UNeg | TPlusPlus => UInc | TMinusMinus => UDec
-  | _ => UOther
-  end.
-
-Inductive litk := LStr | LRegex | LNum | LTrue | LFalse | LNull | LOther.
-Definition litk_of (t : tag) : litk :=
-  match t with
-  | TStr | TIdent => LStr | TRegex => LRegex | TNum => LNum
-  | TTrue => LTrue | TFalse => LFalse | TNull => LNull
-  | _ => LOther
-  end.
-
-Inductive isk := IsFunction | IsNull | IsName.
-Definition isk_of (t : tag) : isk :=
-  match t with TFunction => IsFunction | TNull => IsNull | _ => IsName end.
-
 Section Evaluator.
   Variable src : bytes.            (* the text the evaluator's lexer holds *)
   Variable funcs : list func.      (* Program.Functions *)
@@ -68,7 +31,7 @@ Section Evaluator.
   (* Evaluator.error(token, msg) *)
   Definition rt_error {A} (t : token) : M A :=
     let '(text, line, col) := get_line_col src (tpos t) in
-    fail (Err (mkErr ERuntime line col text)).
+    raise_err (mkErr ERuntime line col text).
 
   (* Lexer.GetString: an out-of-range slice panics *)
   Definition tok_string (t : token) : M bytes :=
@@ -209,15 +172,15 @@ Section Evaluator.
     | None => rt_error tok
     end.
 
-  Definition is_type_name (v : value) (name : bytes) : bool :=
-    if bytes_eqb name (bs "string") then match v with VStr _ => true | _ => false end
-    else if bytes_eqb name (bs "bool") then match v with VBool _ => true | _ => false end
-    else if bytes_eqb name (bs "number") then match v with VNum _ => true | _ => false end
-    else if bytes_eqb name (bs "array") then match v with VArr _ _ _ => true | _ => false end
-    else if bytes_eqb name (bs "object") then match v with VObj _ => true | _ => false end
-    else if bytes_eqb name (bs "regex") then match v with VRegex _ => true | _ => false end
-    else if bytes_eqb name (bs "unknown") then match v with VUnknown => true | _ => false end
-    else false.
+  (* a value-level result at the tokens of the expression *)
+  Definition lift_vres (r : vres) (tl top tr : token) : M addr :=
+    match r with
+    | VOk v => m_alloc v
+    | VErrLeft => rt_error tl
+    | VErrOp => rt_error top
+    | VErrRight => rt_error tr
+    | VUnsupp => fail Unsupp
+    end.
 
   Definition as_float_m (v : value) : M float :=
     match as_float v with Some f => ret f | None => fail Unsupp end.
@@ -239,17 +202,6 @@ Section Evaluator.
     end.
 
   (* the value-level part of a binary operator, after both operands are evaluated *)
-  Definition cmp_to_bool (o : bop) (c : comparison) : bool :=
-    match o with
-    | BLt => match c with Lt => true | _ => false end
-    | BGt => match c with Gt => true | _ => false end
-    | BEq => match c with Eq => true | _ => false end
-    | BNe => match c with Eq => false | _ => true end
-    | BLe => match c with Gt => false | _ => true end
-    | BGe => match c with Lt => false | _ => true end
-    | _ => false
-    end.
-
   Fixpoint eval_expr (n : nat) (e : expr) {struct n} : M addr :=
     match n with
     | O => fail Fuel
@@ -476,9 +428,7 @@ Section Evaluator.
         if postfix then m_alloc (VNum old)
         else let* sv := m_load stored in m_alloc sv in
       match uop_of (ttag op) with
-      | UNot => bool_cell (negb (is_truthy v))
-      | UPos => let* x := as_float_m v in m_alloc (VNum x)
-      | UNeg => let* x := as_float_m v in m_alloc (VNum (f_neg x))
+      | UNot | UPos | UNeg => lift_vres (unop_value (uop_of (ttag op)) v) op op op
       | UInc => incdec true
       | UDec => incdec false
       | UOther => rt_error op
@@ -498,49 +448,9 @@ Section Evaluator.
         let* rc := eval_expr f r in
         let* rv := m_load rc in
         k rc rv in
-      let compare : M addr :=
+      let by_value : M addr :=
         with_right (fun rc rv =>
-          match lv, rv with
-          | VUnknown, _ | _, VUnknown =>
-            bool_cell (match o with BLt | BGt => true | _ => false end)
-          | _, _ =>
-            match compare_values lv rv with
-            | CmpOk c => bool_cell (cmp_to_bool o c)
-            | CmpErr => rt_error (expr_token l)
-            | CmpUnsupp => fail Unsupp
-            end
-          end) in
-      let arith : M addr :=
-        with_right (fun rc rv =>
-          let is_str := match lv, rv with VStr _, _ | _, VStr _ => true | _, _ => false end in
-          if (match o with BAdd => true | _ => false end && is_str)%bool then
-            m_alloc (VStr (to_str lv ++ to_str rv))
-          else
-            let* a := as_float_m lv in
-            let* b := as_float_m rv in
-            match o with
-            | BAdd => m_alloc (VNum (f_add a b))
-            | BSub => m_alloc (VNum (f_sub a b))
-            | BMul => m_alloc (VNum (f_mul a b))
-            | BDiv => if f_is_zero b then rt_error op else m_alloc (VNum (f_div a b))
-            | _ =>
-              let ai := f_trunc_int64 a in
-              let bi := f_trunc_int64 b in
-              if Z.eqb bi 0 then rt_error op
-              else m_alloc (VNum (f_of_Z (Z.rem ai bi)))
-            end) in
-      let regex (negate : bool) : M addr :=
-        with_right (fun rc rv =>
-          let subject := to_str lv in
-          match rv with
-          | VStr pat | VRegex pat =>
-            match Regex.regex_match pat subject with
-            | Regex.RxMatch b => bool_cell (if negate then negb b else b)
-            | Regex.RxBadPattern => rt_error (expr_token r)
-            | Regex.RxUnsupported => fail Unsupp
-            end
-          | _ => rt_error (expr_token r)
-          end) in
+          lift_vres (binop_value o lv rv) (expr_token l) op (expr_token r)) in
       match o with
       | BAnd =>
         if is_truthy lv then
@@ -593,10 +503,9 @@ Section Evaluator.
             | _ => ret c
             end
           end)
-      | BLt | BGt | BEq | BNe | BLe | BGe => compare
-      | BAdd | BSub | BMul | BDiv | BMod => arith
-      | BMatch => regex false
-      | BNoMatch => regex true
+      | BLt | BGt | BEq | BNe | BLe | BGe
+      | BAdd | BSub | BMul | BDiv | BMod
+      | BMatch | BNoMatch => by_value
       | BAssign => with_right (fun rc rv => eval_assignment f (expr_token l) lc rc)
       | BOther => with_right (fun rc rv => rt_error op)
       end
